@@ -409,7 +409,7 @@ def check_tables(run, F):
         run.ob('AGG.table', fn, fn.name, leaf == w, fn.loc(), 'body = %s' % leaf)
     fn = F.one('AggValidBasic::count_none')
     t = N.tbl(fn)
-    w = N.T(([], "n'", ['n := 0', 'for a0 in self { if !VALID(a0) { n AddAssign 1; } }']))
+    w = N.T(([], "n'", ['n := 0', 'for a0 in self { if !VALID(a0) { n AddAssign 1 } }']))
     run.ob('AGG.table', fn, 'count_none', t == w, fn.loc(), dtree.show(t))
     fn = F.one('AggValidBasic::vcount_value')
     t = N.tbl(fn)
